@@ -33,7 +33,7 @@ def check(repo, col, tier):
     col.rule("R-C08-space", "index space of the subscript == position space of the array (per key class)", 12)
     col.rule("R-C08-order", "clamps are applied after the updates they override", 4)
     col.rule("R-C08-time", "padding / truncation / transposition of externals", 6)
-    col.rule("R-C08-inputs", "stimulus, voltage clamp and state clamps are applied exactly when the inputs have them", 3)
+    col.rule("R-C08-inputs", "stimulus, voltage clamp and state clamps are applied exactly when the inputs have them", 7)
     input_guards(repo, col, "R-C08-inputs")
     col.rule("R-C08-recs", "recs = concat([init, recordings[:n]]).T", 3)
     col.rule("R-C08-sibling", "stimulate/clamp and their data_ twins agree", 6)
@@ -492,9 +492,13 @@ def input_guards(repo, col, R):
     for s_ in ex.stores:
         if s_.kind != "sub" or s_.value is None:
             continue
-        sc = s_.value if (s_.value.op == "mcall" and s_.value.name == "set" and T.find(s_.value, lambda x: x.op == "param" and x.name == "externals") is not None) else None
+        sc = s_.value if (s_.value.op == "mcall" and s_.value.name in ("set", "add", "multiply", "max", "min") and
+                          s_.value.args and s_.value.args[0].op == "sub" and s_.value.args[0].args[0].op == "attr" and s_.value.args[0].args[0].name == "at" and
+                          T.find(s_.value, lambda x: x.op == "param" and x.name == "externals") is not None) else None
         if sc is None:
             continue
+        col.check(sc.name == "set", R, fi, f"`{unparse(s_.node)[:40]}`: a clamp REPLACES the state by the clamp value", ".at[rows].set(value)",
+                  f"the clamp uses `.{sc.name}`: the clamped state becomes state {'+' if sc.name == 'add' else sc.name} value instead of the value", node=s_.node)
         if s_.key.op == "const" and s_.key.name == "v":
             n_v += 1
             g_ = [x for x in (has(g, "v") for g in s_.guards) if x is not None]
@@ -512,8 +516,10 @@ def input_guards(repo, col, R):
             col.check(ok, R, fi, "the generic clamp runs for every input except `i` and `v`", "if key not in ['i', 'v']",
                       f"the generic clamp `{unparse(s_.node)[:50]}` runs for {('only ' + str(sorted(ex_[0][1]))) if ex_ and not isinstance(ex_[0], frozenset) else ('all keys except ' + str(sorted(ex_[0])) if ex_ else 'every key')}: "
                       f"clamps of channel / synapse states are skipped, or the stimulus current is written into a state", node=s_.node)
-    if n_v < 1 or n_gen < 1:
-        raise AnalysisError(f"Module.step: clamp stores not recognised (voltage {n_v}, generic {n_gen})")
+    col.check(n_v >= 1, R, fi, "Module.step applies the voltage clamp", "u['v'].at[external_inds['v']].set(externals['v'])",
+              "no statement writes the clamp values of `v` into the state: a voltage clamp has no effect", node=fi.node)
+    col.check(n_gen >= 1, R, fi, "Module.step applies the clamps of channel and synapse states", "u[key].at[inds].set(externals[key])",
+              "no statement writes the clamp values of channel / synapse states into the state: such clamps have no effect", node=fi.node)
 
 
 def _stmt_of(fn, node):
